@@ -2,12 +2,18 @@
    Model: Gv.C12.Model (LTS of the subscription half of resolve.go, repaired code = variant [fixed]);
    [run fixed flt wresf ev_bad hbfail init acts = Some st] ranges over ALL action lists the LTS accepts
    (all histories, all interleavings at the granularity of DESIGN.md Appendix A, unbounded), for all
-   oracles: filter outcome, write/flush outcome, failing payloads, failing heartbeats. *)
-From Gv Require Import C12.Model C12.Spec C12.ProofsBase C12.ProofsC12 C12.ProofsDeliv C12.ProofsFinal C12.Witness.
+   oracles: filter outcome, write/flush outcome, failing payloads, failing heartbeats.
+   Writer calls are intervals: [OW s c] = the call is entered, [OWE s c] = it returns; a goroutine can
+   be parked inside a call (DESIGN.md Appendix A), writeMu is explicit state ([wlk]). *)
+From Gv Require Import C12.Model C12.Spec C12.ProofsBase C12.ProofsC12 C12.ProofsDeliv C12.ProofsOrder C12.ProofsFinal C12.Witness.
 From Coq Require Import List Bool Arith PeanoNat.
 Import ListNotations.
 
-(* no writer call of any kind after the subscriber's completed channel was closed *)
+(* no writer call of any kind after the subscriber's completed channel was closed.
+   STRENGTHENED (statement unchanged, definition in Spec.v): with writer calls as intervals the predicate
+   now says that after close(completed_s) no call on the writer of s is entered, none returns, and that
+   at the close no call of s is in progress -- close(completed) happens only between writer calls,
+   which is what done() taking writeMu provides. *)
 Theorem c12_no_write_after_completed :
   forall flt wresf ev_bad hbfail acts st,
     run fixed flt wresf ev_bad hbfail init acts = Some st -> no_write_after_completed (chron st).
@@ -21,17 +27,23 @@ Theorem c12_completed_once :
 Proof. exact final_completed_once. Qed.
 Print Assumptions c12_completed_once.
 
-(* writes_exclusive: a transition that adds a writer call of subscriber s to the log executes an
-   instruction that is a writeMu region of s ([w_region]: writeError, the Write/Flush region of
-   executeSubscriptionUpdate, complete()/error(), sendHeartbeat); a region is ONE transition of the
-   LTS, so two regions of the same subscriber never overlap -- this is what mutual exclusion of
-   writer calls means in the model (instruction-level overlap is outside it, see DESIGN.md section 8). *)
+(* writes_exclusive.  CHANGED SHAPE (stronger): writer calls used to be atomic in the model, so mutual
+   exclusion could only be stated as "a call is logged by a writeMu region, a region is one transition".
+   Now calls are intervals and the statement is about the intervals themselves:
+   (1) per subscriber the log reads enter, return, enter, return, ...: a call is entered only while no
+       call of that subscriber is in progress and a return always closes the one call in progress;
+   (2) writeMu of s is held exactly while a call of s is in progress;
+   (3) the old statement, kept: every entry / return of a call of s is logged by an instruction that
+       is part of a writeMu region of s ([w_region]: writeError, the Write/Flush region of
+       executeSubscriptionUpdate, complete()/error(), sendHeartbeat, and their continuations [IWCont]). *)
 Theorem c12_writes_exclusive :
-  forall flt wresf ev_bad hbfail acts st th x st' s,
+  forall flt wresf ev_bad hbfail acts st,
     run fixed flt wresf ev_bad hbfail init acts = Some st ->
-    step fixed flt wresf ev_bad hbfail st (AStep th x) = Some st' ->
-    nw s (log st') <> nw s (log st) ->
-    exists i rest, lookup_thr th (threads st) = Some (i :: rest) /\ w_region i = Some s.
+    writes_exclusive (chron st) /\
+    (forall s, nw s (chron st) = nwe s (chron st) + (if mem s (wlk st) then 1 else 0)) /\
+    (forall th x st' s, step fixed flt wresf ev_bad hbfail st (AStep th x) = Some st' ->
+       nwc s (log st') <> nwc s (log st) ->
+       exists i rest, lookup_thr th (threads st) = Some (i :: rest) /\ w_region i = Some s).
 Proof. exact final_writes_exclusive. Qed.
 Print Assumptions c12_writes_exclusive.
 
@@ -52,11 +64,32 @@ Theorem c12_delivery_order :
 Proof. exact final_delivery_order. Qed.
 Print Assumptions c12_delivery_order.
 
+(* Sources that call the updater from several goroutines.  [GAccept t e l] is logged inside the
+   updater-mutex section of trigger instance t, so the order of these entries ([emitted t]) is the order
+   in which the Update / UpdateSubscription calls acquired the updater mutex = the order of emission.
+   (1) fanout_serial: every Write of an event to a subscriber of t is entered while that event is the
+       most recently emitted event of t -- the whole fan-out of A is over before B is started;
+   (2) what was written to s is a subsequence of the events emitted by its trigger, so all subscribers
+       of a trigger see their events in one and the same order;
+   (3) without ghost entries, for pairwise distinct events: the Writes made to the subscribers of one
+       trigger never return to an earlier event (no a .. b .. a) -- the clause evaluated on the
+       implementation's log ([events_serial_b]). *)
+Theorem c12_fanout_serial :
+  forall flt wresf ev_bad hbfail acts st,
+    run fixed flt wresf ev_bad hbfail init acts = Some st ->
+    fanout_serial (fun s => s_tid (subs st s)) (chron st) /\
+    (forall s, subseq (writes_of s (chron st)) (emitted (s_tid (subs st s)) (chron st))) /\
+    (forall t, NoDup (emitted t (chron st)) -> serial (gwrites (fun s => s_tid (subs st s)) t (chron st))).
+Proof. exact final_fanout_serial. Qed.
+Print Assumptions c12_fanout_serial.
+
 (* the boolean checkers run on the implementation's log are exact *)
 Theorem c12_checkers_exact :
   (forall l, no_write_after_completed_b l = true <-> no_write_after_completed l) /\
-  (forall l, completed_once_b l = true <-> completed_once l).
-Proof. exact (conj no_write_after_completed_b_ok completed_once_b_ok). Qed.
+  (forall l, completed_once_b l = true <-> completed_once l) /\
+  (forall l, writes_exclusive_b l = true <-> writes_exclusive l) /\
+  (forall w, serial_b w = true <-> serial w).
+Proof. exact (conj no_write_after_completed_b_ok (conj completed_once_b_ok (conj writes_exclusive_b_ok serial_b_ok))). Qed.
 Print Assumptions c12_checkers_exact.
 
 (* HISTORICAL (pre-repair code, variant hist_a: complete()/error() do not re-test removed under
@@ -73,3 +106,20 @@ Example c12_example_run :
     threads st = [] /\ writes_of 1 (chron st) = [7] /\ writes_of 2 (chron st) = [7; 8] /\
     acc bad0 1 (chron st) = [7] /\ acc bad0 2 (chron st) = [7; 8] /\ closes (chron st) = [1; 2].
 Proof. exact example_run_proof. Qed.
+
+(* a writer call in progress keeps close(completed) waiting: subscriber 1 is removed, writeMu is held by
+   the Write in progress, the unsubscribing client has [IClose 1] next and no step of it is enabled *)
+Example c12_example_close_waits :
+  exists st, run fixed flt0 wres0 bad0 hb0 init ex_close_waits = Some st /\
+    mem 1 (wlk st) = true /\ s_removed (subs st 1) = true /\
+    lookup_thr (TCl 4) (threads st) = Some [ICloseLoop [1]; ICancel 0] /\
+    step fixed flt0 wres0 bad0 hb0 st (AStep (TCl 4) (XPick 1)) = None.
+Proof. exact close_waits_for_writer. Qed.
+
+(* two goroutines of one source: Update(8) is called while Update(7) is inside the Write to
+   subscriber 1; it waits for the updater mutex, nothing of 8 is delivered *)
+Example c12_example_second_update_waits :
+  exists st, run fixed flt0 wres0 bad0 hb0 init ex_two_updates = Some st /\
+    step fixed flt0 wres0 bad0 hb0 st (AStep (TSrc 4) XNone) = None /\
+    mem 1 (wlk st) = true /\ emitted 0 (chron st) = [7] /\ writes_of 1 (chron st) = [7] /\ writes_of 2 (chron st) = [].
+Proof. exact second_update_waits. Qed.
